@@ -20,7 +20,7 @@ CHECK = {
     "bounds_quick": "inputs: <=3 lines from 8 line templates x {LF, CRLF, no final newline}; <=2 reader deviations "
                     "(HandleSet), <=1 for other destinations / buffers / injected errors; every fragmentation into reads (+<=1 decoration) "
                     "for inputs <=8 bytes over 7 short templates; storage: all Add sequences <=5 over 12 records",
-    "bounds_thorough": "<=4 lines, <=3 deviations, every fragmentation for inputs <=11 bytes, Add sequences <=6",
+    "bounds_thorough": "<=4 lines with <=2 deviations (<=3 on inputs of <=24 bytes), every fragmentation for inputs <=11 bytes, Add sequences <=6",
     "assumptions": [
         "line contents beyond the 8 templates are covered by C07, which enumerates single lines",
         "readers that return more than 3 consecutive (0, nil) or violate io.Reader are out of scope",
